@@ -510,6 +510,13 @@ func (env *SpecEnv) index(a, i SV) SV {
 			et = a.T.Underlying().(*types.Slice).Elem()
 		}
 		if av.Base.Cell == nil {
+			// nil slice: the element is unspecified (specs guard such reads with != nil)
+			if et != nil {
+				if es, ok := env.vc.sortOf(et); ok {
+					arr := env.vc.ufApp("nil_slice_"+sanitize(es.String()), ArrSort(env.vc.intSort(64), es))
+					return SV{V: Select(arr, it), T: et}
+				}
+			}
 			sfail("index of nil slice in spec")
 		}
 		ii := env.vc.iAdd(av.Off, it)
@@ -1205,6 +1212,18 @@ func (env *SpecEnv) call(x *ast.CallExpr, subs map[string]*SpecExpr) SV {
 				mul(e(1, 0), sub(mul(e(0, 1), e(2, 2)), mul(e(2, 1), e(0, 2))))),
 				mul(e(2, 0), sub(mul(e(0, 1), e(1, 2)), mul(e(1, 1), e(0, 2)))))
 			return SV{V: d, T: types.Typ[types.Float64]}
+		case "rgba_r", "rgba_g", "rgba_b", "rgba_a":
+			// channels returned by c.RGBA() for a symbolic color.Color value
+			a := env.expr(x.Args[0], subs)
+			si, ok := a.V.(SymIface)
+			if !ok {
+				sfail("%s of non-symbolic colour (%T)", id.Name, a.V)
+			}
+			k := map[string]int{"rgba_r": 0, "rgba_g": 1, "rgba_b": 2, "rgba_a": 3}[id.Name]
+			u32 := types.Typ[types.Uint32]
+			sig := types.NewSignatureType(nil, nil, nil, nil, types.NewTuple(types.NewVar(0, nil, "r", u32), types.NewVar(0, nil, "g", u32), types.NewVar(0, nil, "b", u32), types.NewVar(0, nil, "a", u32)), false)
+			rets := vc.symMethodResults(env.st, si, "(image/color.Color).RGBA", sig, nil)
+			return SV{V: rets[k], T: u32}
 		case "recovered":
 			return SV{V: TBool(true), T: boolT}
 		case "Pow":
@@ -1428,7 +1447,27 @@ func (vc *VC) evalPure(fn *ssa.Function, args []Val, st *State, parent *Frame) [
 		if o.Panic {
 			continue
 		}
-		cond := And(o.St.pc[base:]...)
+		var guards, facts []Term
+		for k := base; k < len(o.St.pc); k++ {
+			if k < len(o.St.isFact) && o.St.isFact[k] {
+				facts = append(facts, o.St.pc[k])
+			} else {
+				guards = append(guards, o.St.pc[k])
+			}
+		}
+		cond := And(guards...)
+		// facts established along this path (assumed contracts of callees, ...) hold
+		// whenever the path is taken: hand them to the caller
+		for _, f := range facts {
+			st.Fact(Implies(cond, f))
+		}
+		// memory effects of the evaluated call on fresh cells are kept so returned
+		// slices/pointers remain readable
+		for c, v := range o.St.mem {
+			if _, ok := st.mem[c]; !ok {
+				st.mem[c] = v
+			}
+		}
 		if first {
 			res = append([]Val(nil), o.Ret...)
 			first = false
